@@ -31,6 +31,7 @@ PROP = "C20"
 MARK = "  # pyrefact: ignore"
 
 
+MULTILINE_DICT = '{\n        "host": "localhost-of-the-primary-database",\n        "port": 5432,\n        "name": "primary",\n    }'
 DIRECT_EDIT_PROGRAMS = {
     # abstractions.overused_constant: a long literal used five times or more is given a name, all uses are replaced
     "overused_string": (
@@ -49,6 +50,12 @@ DIRECT_EDIT_PROGRAMS = {
         "def first():\n    return (\"north\", \"south\", \"east\", \"west\")[0]\n\n\n"
         "def width():\n    return len((\"north\", \"south\", \"east\", \"west\"))\n\n\n"
         "print(known(\"east\"), unknown(\"up\"), count([\"west\", \"\"]), first(), width())\n"),
+    # the same with a literal that spans several physical lines: a comment may sit on ANY line of a use (first, inner, last)
+    "overused_multiline_dict": "".join(
+        f"def use{i}(key):\n    return MULTI.get(key, {i})\n\n\n".replace("MULTI", MULTILINE_DICT) for i in range(5))
+        + "print(use0(\"host\"), use1(\"port\"), use2(\"name\"), use3(\"host\"), use4(\"port\"))\n",
+    "unsorted_multiline_import": ("from os.path import (\n    join,\n    basename,\n    dirname,\n)\nimport sys\n\n\n"
+                                  "print(join(\"a\", \"b\"), basename(\"/x/y\"), dirname(\"/x/y\"), sys.maxsize > 0)\n"),
 }
 
 
